@@ -38,4 +38,4 @@ if __name__ == '__main__':
             out.append([cls.__name__, 'explicit', 'PacketError'])
         except Exception as e:
             out.append([cls.__name__, 'explicit', type(e).__name__])
-    json.dump(out, open(sys.argv[2], 'w'))
+    json.dump(out, open(sys.argv[2], 'w'), default=lambda o: {'object': type(o).__name__})
